@@ -57,8 +57,9 @@ func Ghost_dlvContent(m Manager) []byte            { return ghost_dlvContent(m) 
 //@   serves C01
 // spec_carries: the message handed to the store is a delivery whose reader yields two generated
 // header lines followed by exactly the bytes of the DATA block (C02).
-//@ pred spec_carries(m storage.Message, source []byte) bool = m.(*Delivery) != nil && m.(*Delivery).Reader != nil &&
-//@     spec_endsWith(ghost_rcontent(m.(*Delivery).Reader), vcTokBytes(source))
+// A delivery's Source yields what its reader yields (proved: (*Delivery).Source/post.yieldsReader); this
+// is what "the content the message would yield now" means for a delivery handed to a store.
+//@ pred spec_link_Delivery(d *Delivery) bool = storage.Ghost_srcNow(storage.Message(d)) == ghost_rcontent(d.Reader)
 
 //@ pred spec_endsWith(c vcTok, tail vcTok) bool = exists a string, b string :: { vcTokStr(a), vcTokStr(b) } c == vcTokCat(vcTokStr(a), vcTokCat(vcTokStr(b), tail))
 
@@ -123,7 +124,7 @@ func ghost_emitted(eb *extension.AsyncEventBroker[event.MessageMetadata]) vcSeq[
 
 //@ func (*StoreManager).Deliver
 //@   requires s.Store != nil && s.ExtHost != nil && s.ExtHost.Events != nil && from != nil && spec_rcptsOK(recipients)
-//@   modifies ghost_nadded(s.Store), ghost_addBoxes(s.Store), ghost_addMsgs(s.Store), ghost_addIDs(s.Store),
+//@   modifies ghost_addContents(s.Store), allof(ghost_rcontent), allof(ghost_srcContent), ghost_nadded(s.Store), ghost_addBoxes(s.Store), ghost_addMsgs(s.Store), ghost_addIDs(s.Store),
 //@      ghost_lastEmit(&s.ExtHost.Events.BeforeMessageStored), ghost_nemitted(&s.ExtHost.Events.AfterMessageStored), ghost_emitted(&s.ExtHost.Events.AfterMessageStored)
 //@   ensures[policyFanout C01] ret == nil && ghost_lastEmit(&s.ExtHost.Events.BeforeMessageStored) == nil ==>
 //@      storage.Ghost_nadded(s.Store) == old(storage.Ghost_nadded(s.Store)) + spec_cnt(old(spec_storeFlags(recipients)), 0, len(recipients))
@@ -136,7 +137,7 @@ func ghost_emitted(eb *extension.AsyncEventBroker[event.MessageMetadata]) vcSeq[
 //@         storage.Ghost_addBoxAt(s.Store, old(storage.Ghost_nadded(s.Store)) + j) == ghost_lastEmit(&s.ExtHost.Events.BeforeMessageStored).Mailboxes[j]
 //@   ensures[size C01] forall j int :: { storage.Ghost_addMsgAt(s.Store, j) } old(storage.Ghost_nadded(s.Store)) <= j && j < storage.Ghost_nadded(s.Store) && ghost_lastEmit(&s.ExtHost.Events.BeforeMessageStored) == nil ==>
 //@         storage.Ghost_addMsgAt(s.Store, j).Size() == int64(len(source)) && storage.Ghost_addMsgAt(s.Store, j).Mailbox() == storage.Ghost_addBoxAt(s.Store, j)
-//@   ensures[contentHandedOver C02] forall j int :: { storage.Ghost_addMsgAt(s.Store, j) } old(storage.Ghost_nadded(s.Store)) <= j && j < storage.Ghost_nadded(s.Store) ==> spec_carries(storage.Ghost_addMsgAt(s.Store, j), source)
+//@   ensures[contentHandedOver C02] forall j int :: { storage.Ghost_addContentAt(s.Store, j) } old(storage.Ghost_nadded(s.Store)) <= j && j < storage.Ghost_nadded(s.Store) ==> spec_endsWith(storage.Ghost_addContentAt(s.Store, j), vcTokBytes(source))
 //@   ensures[storedEvents C16] ret == nil ==> ghost_nemitted(&s.ExtHost.Events.AfterMessageStored) - old(ghost_nemitted(&s.ExtHost.Events.AfterMessageStored)) == storage.Ghost_nadded(s.Store) - old(storage.Ghost_nadded(s.Store))
 //@   ensures[storedEventIdentity C16] forall j int :: { vcSeqAt(ghost_emitted(&s.ExtHost.Events.AfterMessageStored), j) } old(ghost_nemitted(&s.ExtHost.Events.AfterMessageStored)) <= j && j < ghost_nemitted(&s.ExtHost.Events.AfterMessageStored) ==>
 //@         vcSeqAt(ghost_emitted(&s.ExtHost.Events.AfterMessageStored), j) != nil &&
@@ -153,7 +154,7 @@ func ghost_emitted(eb *extension.AsyncEventBroker[event.MessageMetadata]) vcSeq[
 //@   loop 3: decreases len(recipients) - ridx
 //@   loop 4: invariant 0 <= ridx && ridx <= len(inbound.Mailboxes) && inbound != nil
 //@   loop 4: invariant storage.Ghost_nadded(s.Store) == old(storage.Ghost_nadded(s.Store)) + ridx
-//@   loop 4: invariant forall j int :: { storage.Ghost_addMsgAt(s.Store, j) } old(storage.Ghost_nadded(s.Store)) <= j && j < storage.Ghost_nadded(s.Store) ==> spec_carries(storage.Ghost_addMsgAt(s.Store, j), source)
+//@   loop 4: invariant forall j int :: { storage.Ghost_addContentAt(s.Store, j) } old(storage.Ghost_nadded(s.Store)) <= j && j < storage.Ghost_nadded(s.Store) ==> spec_endsWith(storage.Ghost_addContentAt(s.Store, j), vcTokBytes(source))
 //@   loop 4: invariant ghost_nemitted(&s.ExtHost.Events.AfterMessageStored) == old(ghost_nemitted(&s.ExtHost.Events.AfterMessageStored)) + ridx
 //@   loop 4: invariant forall j int :: { inbound.Mailboxes[j] } 0 <= j && j < ridx ==> storage.Ghost_addBoxAt(s.Store, old(storage.Ghost_nadded(s.Store)) + j) == inbound.Mailboxes[j]
 //@   loop 4: invariant forall j int :: { storage.Ghost_addMsgAt(s.Store, j) } old(storage.Ghost_nadded(s.Store)) <= j && j < storage.Ghost_nadded(s.Store) ==>
